@@ -152,6 +152,7 @@ type g struct {
 	routes []route
 	usedM  map[string]bool
 	annMsgs []string // names of annotated message types usable as nested or top-level bodies
+	annMix  []string // messages combining two annotation kinds (only reached through the Annotated echo service)
 	usedHdrM map[string]bool
 	svcHdr   map[string]*spec.Header
 	lastMethHdr map[string]string
@@ -294,6 +295,9 @@ func World(cfg Config) *spec.World {
 		bp := "/ann"
 		s.BasePath = &bp
 		for _, n := range x.annMsgs {
+			s.Methods = append(s.Methods, &spec.Method{Name: "Echo" + n, In: x.fq(n), Out: x.fq(n), HasConfig: true, Verb: "POST", Path: "/" + strings.ToLower(n)})
+		}
+		for _, n := range x.annMix {
 			s.Methods = append(s.Methods, &spec.Method{Name: "Echo" + n, In: x.fq(n), Out: x.fq(n), HasConfig: true, Verb: "POST", Path: "/" + strings.ToLower(n)})
 		}
 		x.f.Services = append(x.f.Services, s)
@@ -1078,6 +1082,18 @@ func (x *g) annotatedTypes() {
 			{Name: "items", Number: 1, Kind: "message", TypeName: x.fq("Item"), Card: "repeated", Unwrap: true}}})
 		add(&spec.Message{Name: "AnnRootMap", Fields: []*spec.Field{
 			{Name: "by_key", Number: 1, Kind: "message", TypeName: x.fq("Item"), Card: "map", MapKey: "string", Unwrap: true}}})
+	}
+	if x.cfg.AnnService && x.has(FUnwrap) && x.has(FEnumValue) {
+		// two annotation kinds meeting in one message: the holder of an unwrap map is decoded field by
+		// field through encoding/json, which is the only way the custom codec of an enum with
+		// enum_value spellings is ever reached (protojson never calls it). Kept out of annMsgs so that
+		// the draws of earlier worlds are unchanged.
+		x.f.Messages = append(x.f.Messages, &spec.Message{Name: "AnnMixHolder", Fields: []*spec.Field{
+			{Name: "colors", Number: 1, Kind: "enum", TypeName: x.fq("Color"), Card: "repeated"},
+			{Name: "color", Number: 2, Kind: "enum", TypeName: x.fq("Color")},
+			{Name: "groups", Number: 3, Kind: "message", TypeName: x.fq("ItemList"), Card: "map", MapKey: "string"},
+			{Name: "note", Number: 4, Kind: "string"}}})
+		x.annMix = append(x.annMix, "AnnMixHolder")
 	}
 }
 
